@@ -393,6 +393,43 @@ func C17Cases(c *Ctx, rng *rand.Rand, spec *LSpec, withDisk bool, nArgv int) ([]
 			}
 		}
 	}
+	// (d) earlier output visible to the loader (constraint configured empty, or no build tag):
+	// after the types changed the stale output no longer compiles; with another converter
+	// defective the run must fail and leave everything — the stale file included — untouched
+	hasSamePkg := false
+	for i := range spec.Convs {
+		if spec.Convs[i].Kind == "variables" || strings.HasPrefix(spec.Convs[i].OutFile, "./same_") {
+			hasSamePkg = true
+		}
+		if spec.Convs[i].Guarded || spec.Convs[i].GuardedDecl {
+			// without the build tag a guarded declaration is not selected at all
+			hasSamePkg = false
+			break
+		}
+	}
+	if hasSamePkg && n >= 2 && spec.Tag == "" && spec.TagList == "" {
+		for k := 0; k < 2; k++ {
+			bad := v2.Clone()
+			di := rng.IntN(n)
+			bad.Convs[di].Defect = []string{"conversion", "signature", "directive"}[rng.IntN(3)]
+			mk := func(setup bool, expect string) Op {
+				g := &GenSpec{Setup: setup, Expect: expect, Plan: planIdentity()}
+				if k == 0 {
+					g.OutputConstraint = strp("")
+				} else {
+					g.BuildTags = strp("")
+				}
+				return genOp(g)
+			}
+			h := &History{World: w1, Loc: rng.IntN(len(locNames))}
+			h.Ops = append(h.Ops, mk(true, ""))
+			h.Ops = append(h.Ops, editOps("EditTypes+BreakConverters", w1.Files, bad.Render())...)
+			op := mk(false, "fail")
+			op.Label = fmt.Sprintf("stale-output-visible(%s) defective=%s:%s", []string{"-output-constraint ''", "-build-tags ''"}[k], bad.Convs[di].Name, bad.Convs[di].Defect)
+			h.Ops = append(h.Ops, op)
+			hs = append(hs, h)
+		}
+	}
 	// (c) argv
 	for i := 0; i < nArgv; i++ {
 		h := &History{World: w1, Loc: rng.IntN(len(locNames))}
